@@ -440,6 +440,11 @@ def plan_run(ck, Q, cid, c, lp, A, rid, runline, rr, found):
             found("query-failed:" + sig, "%s(%d, unscale=%s) returned %s for a regular basis" % (kind, idx, u, d.get("ret")), case,
                   {"bind": bind, "rep": rep})
             continue
+        allv = [x for f_ in ("coef", "sol", "out") if f_ in d for x in vec(d[f_])]
+        if any(x is None for x in allv):
+            found("nonfinite:" + sig, "%s(%d, unscale=%s) returned a non-finite entry: %s" % (kind, idx, u, d), case,
+                  {"bind": bind, "rep": rep, "rexp": rexp, "cexp": cexp})
+            continue
         if kind in ("ROW", "COL"):
             coef = vec(d["coef"])
             ninds = int(d["ninds"])
